@@ -436,7 +436,7 @@ def random_forms(rng):
 
 
 def random_cfg(rng):
-    prefix = rng.choice([None, None, 'p', 'b', 'seq_x'])
+    prefix = rng.choice([None, None, None, 'p', 'b', 'seq_x', 'Pg', 'nextBatch'])     # prefixes are case-sensitive names
     if prefix:
         mask = rng.choice([0, ALL, ALL, FLAG_BITS, rng.getrandbits(NF), rng.getrandbits(NF)])
     else:
@@ -460,7 +460,7 @@ def designed_cfgs():
         ('prefix-all', cfg_of(prefix='p', mask=A)),
         ('prefix-dashed-names', cfg_of(prefix='p', mask=0)),
         ('prefix-flags-only', cfg_of(prefix='b', mask=F)),
-        ('prefix-all-but-flags', cfg_of(prefix='b', mask=A & ~F)),
+        ('prefix-all-but-flags', cfg_of(prefix='Bx', mask=A & ~F)),
         ('prefix-alternating', cfg_of(prefix='p', mask=0x1555 & A)),
         ('sparse', cfg_of(layout='sparse')),
         ('sparse-prefix', cfg_of(layout='sparse', prefix='p', mask=A)),
